@@ -390,6 +390,10 @@ func (a *Agent) listen(ch chan service.StateMsg) {
 
 		if p, ok := e.Properties.(error); ok {
 			ev.Err = p.Error()
+
+			if verbose {
+				fmt.Printf("[event %s %s %s] %s\n", a.Name, e.StateID, ev.Thid, ev.Err)
+			}
 		}
 
 		a.mu.Lock()
